@@ -18,6 +18,7 @@ type entry struct {
 	zset     map[string]float64
 	json     any
 	expireAt time.Time
+	bm       *sparseBits // typ "string" only: when set, the value is held as sparse bit pages and str is "" (cmd_prob.go)
 }
 
 // Dataset is the keyspace of one shard (shared by a master and its replicas).
@@ -41,6 +42,11 @@ type Mod struct {
 	Seq   int
 	Conn  int // writer connection id, -1 for ghost/expiry
 	Flush bool
+	// State of the key right after the modification (db of the writer; db 0 for ghost writers and expiry).
+	Present  bool      // the key exists
+	Str      string    // its value when it is a string
+	ExpireAt time.Time // its expiry (zero = none)
+	At       time.Time // model clock at the modification
 }
 
 func newDataset() *Dataset {
@@ -56,6 +62,8 @@ func (d *Dataset) db(i int) map[string]*entry {
 	return m
 }
 
+// get looks a key up. The value of a string entry is read through entry.val (it may be held as sparse bit pages,
+// see cmd_prob.go), never through the str field directly.
 func (d *Dataset) get(sc *SrvConn, k string) *entry { return d.db(sc.Sess.DB)[k] }
 
 // Lookup returns the string value of a key in db 0 for oracles ("" and false when missing or not a string).
@@ -63,6 +71,12 @@ func (d *Dataset) Lookup(k string) (string, bool) {
 	e := d.db(0)[k]
 	if e == nil || e.typ != "string" {
 		return "", false
+	}
+	if e.bm != nil {
+		if e.bm.n > maxFlatten {
+			return "", false
+		}
+		return e.bm.flat(), true
 	}
 	return e.str, true
 }
@@ -154,7 +168,14 @@ func (d *Dataset) touch(w *World, sc *SrvConn, k string) {
 		id = sc.ID
 	}
 	w.seq++
-	d.Mods = append(d.Mods, Mod{Key: k, Epoch: d.Epoch[k], Step: w.Step, Seq: w.seq, Conn: id})
+	mod := Mod{Key: k, Epoch: d.Epoch[k], Step: w.Step, Seq: w.seq, Conn: id, At: w.Now()}
+	if en := d.db(dbOf(sc))[k]; en != nil {
+		mod.Present, mod.ExpireAt = true, en.expireAt
+		if en.typ == "string" {
+			mod.Str = en.str
+		}
+	}
+	d.Mods = append(d.Mods, mod)
 	// default / OPTIN / OPTOUT mode: connections remembered for this key
 	if cs := d.tracked[k]; len(cs) > 0 {
 		delete(d.tracked, k)
